@@ -9,7 +9,6 @@ import (
 	"math/rand"
 	"net"
 	"path/filepath"
-	"strings"
 	"sync"
 	"time"
 
@@ -403,8 +402,6 @@ func userExpectClose(pl *plan, conn net.Conn) {
 		cs.run.Count("closes_propagated_to_user", 1)
 	}
 }
-
-var _ = strings.Join
 
 // waitBackend waits until the backend side of the connection has ended. When the first message has not
 // reached the backend closeGrace after the user finished (orderly close) that is a truncation on reliable paths.
